@@ -4,6 +4,7 @@
 
 #include "sbdfstring.h"
 
+#include <limits.h>
 #include <stdlib.h>
 #include <string.h>
 
@@ -16,7 +17,15 @@ char* sbdf_str_create(char const* str)
 
 char* sbdf_str_create_len(char const* str, int length)
 {
-	char* ptr = sbdf_allocate_array(1 + length);
+	char* ptr;
+
+	if (length < 0 || length == INT_MAX)
+	{
+		/* no room for the terminator in an int sized array */
+		return 0;
+	}
+
+	ptr = sbdf_allocate_array(1 + length);
 	if (ptr)
 	{
 		ptr[length] = 0;
